@@ -271,7 +271,7 @@ fn replay(ctx: &Ctx, _engine: &str, case: &Value) -> CaseResult {
 pub static C17: PropDef = PropDef {
     id: "C17",
     level: "exploration",
-    rule: "proptest generates command-name lengths 1..4000, PATH values of 0..60 entries of length 0..4000 (rotated so the longest entry is first / in the middle / last, empty entries included), 0..300 arguments of length up to 4000, env = inherit or 0..300 entries, cwd none / short / 384..4000 bytes (nested real directories), all stream kinds, setuid/setgid/setpgid, and an outcome in {exec succeeds at the j-th PATH candidate, fails everywhere, an injected errno at a child-side step (chdir, dup2, setuid, setgid, setpgid, last exec), direct path runnable / missing / 300..8000 bytes long}. Oracle: the harness's counting global allocator, armed in the forked child by the interposed fork(), reports into a shared page: the number of alloc/alloc_zeroed/realloc calls between fork and exec/_exit must be 0 (deallocations are counted and reported, not judged). Non-trivial = PATH search with >= 2 candidates, or a failing launch, or some length >= 384.",
+    rule: "proptest generates command-name lengths 1..4000, PATH values of 0..60 entries of length 0..4000 (rotated so the longest entry is first / in the middle / last, empty entries included), 0..300 arguments of length up to 4000, env = inherit or 0..300 entries, cwd none / short / 384..4000 bytes (nested real directories), all stream kinds, setuid/setgid/setpgid, and an outcome in {exec succeeds at the j-th PATH candidate, fails everywhere, an injected errno at a child-side step (chdir, dup2, setuid, setgid, setpgid, last exec), direct path runnable / missing / 300..8000 bytes long}. Oracle: the harness's counting global allocator, armed in the forked child by the interposed fork(), reports into a shared page: the number of alloc/alloc_zeroed/realloc calls between fork and exec/_exit must be 0 (deallocations are counted and reported, not judged). Non-trivial = PATH search with >= 2 candidates, or a failing launch, or some length >= 384. A quarter of the cases name the program through PopenConfig::executable with a different argv[0]; exec failures include ENOEXEC (injected, and real text files without an interpreter line, direct and through PATH), ETXTBSY, E2BIG; a quarter of the cases spawn with some of the parent's descriptors 0-2 closed, so that the child's stream sources sit on the numbers they are to be installed on.",
     assumptions: &["the probe sees allocations made through Rust's global allocator (the crate and std); libc-internal malloc calls are not observed", "the interposition layer itself never allocates"],
     engines: "real",
     workers: |_| 16,
